@@ -606,13 +606,14 @@ def project(lines, keep):
 
 
 def run_property(ctx, module, profile, n_quick, n_thorough, monitors, keep, length=(8, 30), extra=None, sig_prefix=None,
-                 drain=False, drain_monitors=None):
+                 drain=False, drain_monitors=None, verdict=None):
     """Returns the Verdict-filled result. `monitors`: list of callables(trace, script)->[(sig, what)].
     `keep`: projection predicate on output lines for the differential comparison."""
     prop = ctx.prop
-    v = C.Verdict(ctx)
+    v = verdict or C.Verdict(ctx)
     b = C.build(ctx, [module])
-    C.proof_audit(ctx, module)
+    if verdict is None or ctx.audit is None:
+        C.proof_audit(ctx, module)
     stats = {"scripts": 0, "ops": 0, "unsupported": 0, "diffs": 0, "monitor_hits": 0, "corpus": 0}
     hist = {}
     if not b["go_ok"] or not os.path.exists(os.path.join(ctx.work, "driver")):
